@@ -2,32 +2,34 @@ From Coq Require Import List Arith Bool.
 Import ListNotations.
 From SM Require Import Base.Num C17.Model C17.Names.
 
-Definition Src := (nat * nat * nat)%type.
-Definition gen (m c t : nat) : Src := (m, c, t).
-Definition tag (s : Src) : nat := let '(m, c, t) := s in (m * 41 + c) * 41 + t.  (* injective for ids <= 40; small because nat is unary *)
+Definition Src := (nat * nat * nat * nat)%type.
+Definition gen (m c h k : nat) : Src := (m, c, h, k).
+(* injective for ids <= 40; small because nat is unary *)
+Definition tag (s : Src) : nat := let '(m, c, h, k) := s in ((m * 41 + c) * 41 + h) * 41 + k.
 
-(* a case: initial texts, history, observed (model id, c id) of every Load in
-   order, observed number of libraries in the cache directory at the end *)
-Definition Case := (nat * nat * nat * list op * list (nat * nat) * nat)%type.
+(* a case: initial files (text, mtime) x 4, history, observed (model, C, header, kernel_iq) text ids of every
+   Load in order, observed number of libraries in the cache directory at the end.  The result also says
+   whether the history is one the theorem speaks about (every edit advances its file's time). *)
+Definition Case := (file * file * file * file * list op * list (nat * nat * nat * nat) * nat)%type.
 
-Fixpoint loads (outs : list (option Src)) : list (nat * nat) :=
+Fixpoint loads (outs : list (option Src)) : list Src :=
   match outs with
   | [] => []
-  | Some (m, c, _) :: r => (m, c) :: loads r
+  | Some x :: r => x :: loads r
   | None :: r => loads r
   end.
 
-Fixpoint pairs_eqb (a b : list (nat * nat)) : bool :=
+Fixpoint quads_eqb (a b : list Src) : bool :=
   match a, b with
   | [], [] => true
-  | (x1, x2) :: a', (y1, y2) :: b' => Nat.eqb x1 y1 && Nat.eqb x2 y2 && pairs_eqb a' b'
+  | (x1, x2, x3, x4) :: a', (y1, y2, y3, y4) :: b' => Nat.eqb x1 y1 && Nat.eqb x2 y2 && Nat.eqb x3 y3 && Nat.eqb x4 y4 && quads_eqb a' b'
   | _, _ => false
   end.
 
 Definition check_case (cs : Case) : bool :=
-  let '(m, c, t, ops, obs, nlibs) := cs in
-  let (s, outs) := run Src gen tag (init Src m c t) ops in
-  pairs_eqb (loads outs) obs && Nat.eqb (length (dlls Src s)) nlibs.
+  let '(m, c, h, k, ops, obs, nlibs) := cs in
+  let (s, outs) := run Src gen tag true (init Src m c h k) ops in
+  advancing Src gen tag true (init Src m c h k) ops && quads_eqb (loads outs) obs && Nat.eqb (length (dlls Src s)) nlibs.
 
 Definition check_cases (l : list Case) : list nat := failing (map check_case l).
 
